@@ -193,6 +193,33 @@ def source_tables(repo: pathlib.Path) -> Dict[str, Any]:
     return res
 
 
+_FROZEN_PATH = pathlib.Path(__file__).resolve().parent / "c06_reserved.json"
+_FROZEN_KEYS = ["reserved_type_names", "reserved_member_names", "type_prefixes", "member_prefix", "over_prefix", "over_suffixes", "primitive_types"]
+_FROZEN_CACHE: Optional[Dict[str, Any]] = None
+
+
+def freeze_reserved(repo: pathlib.Path) -> str:
+    """JSON text of the reserved-name tables of ``repo`` (written once for the pinned tree, see ``frozen_tables``)."""
+    t = source_tables(repo)
+    d = {k: (sorted(t[k]) if isinstance(t[k], (set, frozenset)) else t[k]) for k in _FROZEN_KEYS}
+    return json.dumps(d, indent=1, sort_keys=True) + "\n"
+
+
+def frozen_tables() -> Dict[str, Any]:
+    """
+    The documented reserved names as of the pinned tree (``harness/props/c06_reserved.json``, committed; regenerate with
+    ``python -m harness.props.c06 --freeze-reserved``).  The ORACLE uses only this copy, never the source under test:
+    an entry deleted from the source then shows up as an accepted meta-model that uses a reserved name.
+    """
+    global _FROZEN_CACHE
+    if _FROZEN_CACHE is None:
+        d = json.loads(_FROZEN_PATH.read_text())
+        for k in ("reserved_type_names", "reserved_member_names", "primitive_types"):
+            d[k] = set(d[k])
+        _FROZEN_CACHE = d
+    return _FROZEN_CACHE
+
+
 def _lean_chunks(names: List[str], per: int = 100) -> str:
     if not names:
         return "[]"
@@ -551,6 +578,7 @@ def extract_ex(text: str) -> Tuple[Dict[str, Any], Set[str]]:
         raise Unsupported(f"not Python: {e}")
     enums, classes, consts, fns = [], [], [], []
     bodies: List[Dict[str, Any]] = []
+    lit_values: Dict[str, List[Any]] = {}
     sig_refs: List[str] = []
     type_docs: List[Dict[str, Any]] = []
     fn_docs: List[Dict[str, Any]] = []
@@ -588,6 +616,8 @@ def extract_ex(text: str) -> Tuple[Dict[str, Any], Set[str]]:
                         _doc_entry(type_docs, node.name, st.value.value)  # type: ignore
                     elif isinstance(st, ast.Assign) and len(st.targets) == 1 and isinstance(st.targets[0], ast.Name):
                         lits.append(st.targets[0].id)
+                        if isinstance(st.value, ast.Constant):
+                            lit_values.setdefault(node.name, []).append(st.value.value)
                         if i + 1 < len(body) and _is_str_expr(body[i + 1]):
                             _doc_entry(type_docs, node.name, body[i + 1].value.value)  # type: ignore
                     elif _is_str_expr(st) or isinstance(st, ast.Pass):
@@ -653,6 +683,8 @@ def extract_ex(text: str) -> Tuple[Dict[str, Any], Set[str]]:
             classes.append({"name": node.name, "parents": parents, "props": props, "methods": methods, "invs": invs, "ctor": ctor})
             bodies.append(ctor_body)
     flags = _flags(enums, classes, bodies, sig_refs)
+    if any(len(e["literals"]) != len(set(e["literals"])) for e in enums) or any(len(v) != len(set(map(repr, v))) for v in lit_values.values()):
+        flags.add("duplicate-enum-literal")
     docs: List[Dict[str, Any]] = []
     _doc_entry(docs, None, mm_desc)
     docs.extend(fn_docs)
@@ -835,7 +867,7 @@ def pattern_rules(pattern: str) -> Set[str]:
 
 def oracle_rules(A: Dict[str, Any], tables: Optional[Dict[str, Any]] = None) -> Set[str]:
     """Every documented rule of C06 that the abstract meta-model breaks (rule ids), decided independently of the model."""
-    T = tables if tables is not None else source_tables(REPO)
+    T = tables if tables is not None else frozen_tables()
     bad: Set[str] = set()
     rt, rm = T["reserved_type_names"], T["reserved_member_names"]
     enum_names = [e["name"] for e in A["enums"]]
@@ -1276,7 +1308,7 @@ def catalogue(base: Any, T: Dict[str, Any], rng: Any, n_reserved: int = 2) -> Li
     def pick(xs: List[str], k: int) -> List[str]:
         return rng.sample(xs, min(k, len(xs)))
 
-    for name in pick(rt, n_reserved) + ["class", "boolean", "visitor"]:
+    for name in pick(rt, n_reserved) + ["class", "path", "error", "visitor", "for", "string"]:
         for v in _case_variants(name)[1:] or _case_variants(name):
             add("reservedTypeName", f"reserved-class-name:{v}", lambda m, v=v: m.classes.append(mm.Class(v)))
             add("reservedTypeName", f"reserved-enum-name:{v}", lambda m, v=v: m.enums.append(mm.Enum.of(v, [("Zz_lit_one", "one")])))
@@ -1289,7 +1321,7 @@ def catalogue(base: Any, T: Dict[str, Any], rng: Any, n_reserved: int = 2) -> Li
     member_specials = ["mutable_x", "Mutable_thing", "MUTABLE", "mutablex"]
     method_specials = ["over_x_or_empty", "Over_XOrEmpty", "OVER_OR_EMPTY", "overorempty", "Over_thing_or_Empty"]
     for n in leaves[:2]:
-        for name in pick(rm, n_reserved) + ["descend", "accept"]:
+        for name in pick(rm, n_reserved) + ["descend", "accept", "transform", "for"]:
             for v in _case_variants(name):
                 add("reservedMethodName", f"reserved-method-name:{n}.{v}", lambda m, n=n, v=v: m.cls(n).methods.append(meth(v)))
         for v in member_specials + method_specials:
@@ -1304,7 +1336,7 @@ def catalogue(base: Any, T: Dict[str, Any], rng: Any, n_reserved: int = 2) -> Li
             add("reservedPropertyName", f"reserved-property-affix:{n}.{v}", lambda m, n=n, v=v: m.cls(n).props.append(mm.Prop(v, P("str"))), "derived")
         for v in ("over_x_or_empty", "immutable_x", "Overorempty"):
             add("valid", f"valid-property-name:{n}.{v}", lambda m, n=n, v=v: m.cls(n).props.append(mm.Prop(v, O(P("int")))), "derived")
-    for name in pick(both, n_reserved) + ["visitor", "descend"]:
+    for name in pick(both, n_reserved) + ["visitor", "descend", "path"]:
         for v in _case_variants(name):
             add("reservedConstantName", f"reserved-constant-name:{v}", lambda m, v=v: m.constants.append(mm.ConstantPrimitive(v, "str", "x")))
             add("reservedFunctionName", f"reserved-function-name:{v}", lambda m, v=v: m.verification_functions.append(mm.PatternFn.simple(v, "^a$")))
@@ -1596,6 +1628,49 @@ def catalogue(base: Any, T: Dict[str, Any], rng: Any, n_reserved: int = 2) -> Li
     return [e for e in out if e[2] != "skip"]
 
 
+def removed_reserved_entries(base: Any, frozen: Dict[str, Any], current: Dict[str, Any]) -> List[Entry]:
+    """
+    Mutators using every reserved name (and affix) of the frozen tables that the source under test no longer has:
+    empty on the pinned tree; after a deletion in the source the front end accepts these and the oracle objects.
+    """
+    mm = _mm()
+    out: List[Entry] = []
+    names = [c.name for c in base.classes]
+    leaf = [n for n in names if not mm.descendants(base, n)][0]
+    P, O = mm.Prim, mm.OptionalOf
+
+    def meth(name: str) -> Any:
+        return mm.Method(name, [], P("bool"), impl_specific=True)
+
+    gone_t = sorted(frozen["reserved_type_names"] - current["reserved_type_names"])
+    gone_m = sorted(frozen["reserved_member_names"] - current["reserved_member_names"])
+    for name in gone_t:
+        for v in (_case_variants(name)[1:] or _case_variants(name))[:1]:
+            out.append(("reservedTypeName", f"removed-reserved-class-name:{v}", "any", lambda m, v=v: m.classes.append(mm.Class(v))))
+            out.append(("reservedTypeName", f"removed-reserved-enum-name:{v}", "any", lambda m, v=v: m.enums.append(mm.Enum.of(v, [("Zz_lit_one", "one")]))))
+    for name in gone_m:
+        for v in _case_variants(name)[:1]:
+            out.append(("reservedMethodName", f"removed-reserved-method-name:{v}", "any", lambda m, v=v: m.cls(leaf).methods.append(meth(v))))
+            out.append(("reservedPropertyName", f"removed-reserved-property-name:{v}", "derived", lambda m, v=v: m.cls(leaf).props.append(mm.Prop(v, O(P("int"))))))
+    for name in sorted(set(gone_t) & set(gone_m)):
+        # constants and functions are checked against the union of both tables
+        for v in _case_variants(name)[:1]:
+            out.append(("reservedConstantName", f"removed-reserved-constant-name:{v}", "any", lambda m, v=v: m.constants.append(mm.ConstantPrimitive(v, "str", "x"))))
+            out.append(("reservedFunctionName", f"removed-reserved-function-name:{v}", "any", lambda m, v=v: m.verification_functions.append(mm.PatternFn.simple(v, "^a$"))))
+    for pre in frozen["type_prefixes"]:
+        if pre not in current["type_prefixes"]:
+            out.append(("reservedTypePrefix", f"removed-reserved-type-prefix:{pre}", "any", lambda m, pre=pre: m.classes.append(mm.Class(pre + "thing"))))
+    if frozen["member_prefix"] != current["member_prefix"]:
+        v = frozen["member_prefix"] + "_x"
+        out.append(("reservedMethodName", f"removed-reserved-member-prefix:{v}", "any", lambda m, v=v: m.cls(leaf).methods.append(meth(v))))
+        out.append(("reservedPropertyName", f"removed-reserved-member-prefix-property:{v}", "derived", lambda m, v=v: m.cls(leaf).props.append(mm.Prop(v, O(P("int"))))))
+    for suf in frozen["over_suffixes"]:
+        if suf not in current["over_suffixes"] or frozen["over_prefix"] != current["over_prefix"]:
+            v = frozen["over_prefix"] + "_x_" + suf
+            out.append(("reservedMethodName", f"removed-reserved-over-suffix:{v}", "any", lambda m, v=v: m.cls(leaf).methods.append(meth(v))))
+    return out
+
+
 def build(base: Any, entries: Sequence[Entry]) -> Optional[Any]:
     """Apply mutators to one clone of ``base``; None if their constructor modes are incompatible."""
     modes = {e[2] for e in entries} - {"any"}
@@ -1690,7 +1765,7 @@ def impl_run(text: str) -> Dict[str, Any]:
     mm = _mm()
     r = mm.load(text)
     if r.crash:
-        return {"verdict": "crash", "crash": r.crash, "rules": set(), "error": (r.traceback or "")[-400:]}
+        return {"verdict": "crash", "crash": r.crash, "rules": set(), "error": (r.traceback or "")[-400:], "traceback": r.traceback or ""}
     if r.ok:
         return {"verdict": "accepted", "rules": set(), "error": None}
     return {"verdict": "rejected", "rules": classify(r.error or ""), "error": r.error}
@@ -1712,6 +1787,18 @@ def _parse_model(ans: str) -> Optional[Set[str]]:
     return ids
 
 
+def known_crash_family(A: Optional[Dict[str, Any]], flags: Set[str], impl: Dict[str, Any]) -> Optional[str]:
+    """Crash families that other property checks own (not C06 failures); None for any other crash."""
+    if A is not None and any(c["ctor"] and len({a["name"] for a in c["ctor"]}) != len(c["ctor"]) for c in A["classes"]):
+        return "duplicate-constructor-argument"
+    if "duplicate-enum-literal" in flags:
+        return "duplicate-enum-literal"
+    tb = impl.get("traceback", "")
+    if impl.get("crash") == "crash:AssertionError" and "_verify_all_properties_are_initialized_in_the_constructor" in tb:
+        return "constructor-argument-of-ancestor-missing"
+    return None
+
+
 #: un-modelled messages a *strict* stream (my own mutants) may provoke on purpose
 _EXPECTED_UNMODELLED = {"unmodelled:reCompile"}
 
@@ -1723,7 +1810,7 @@ class _Batch:
         self.ctx = ctx
         self.with_model = with_model
         self.items: List[Dict[str, Any]] = []
-        self.tables = source_tables(REPO)
+        self.tables = frozen_tables()
 
     def add(self, stream: str, source: str, rule: Any = None, label: str = "", A: Optional[Dict[str, Any]] = None, strict: bool = True, expect: Optional[Sequence[str]] = None) -> None:
         self.items.append({"stream": stream, "source": source, "rule": rule, "label": label, "A": A, "strict": strict, "expect": expect})
@@ -1773,14 +1860,24 @@ class _Batch:
             ctx.disagree("roundtrip", inp, {"abstract": {d: it["A"][d] for d in diff}}, {"extract": {d: it["Ax"][d] for d in diff}})
         if it["A"] is not None and it["Ax"] is None:
             ctx.disagree("roundtrip", inp, "abstract() succeeded", "extract() does not support the rendered text")
-        if it["A"] is not None and flags:
+        if it["A"] is not None and flags - {"duplicate-enum-literal"}:
             ctx.disagree("roundtrip", inp, "a generated model", {"flags": sorted(flags)})
         if oracle is None:
             return
-        # ---- the property itself: accepted only if no rule is broken
+        # ---- the property itself: accepted only if no rule is broken; a broken rule is answered with an error report
         if impl["verdict"] == "accepted" and oracle:
             first = sorted(oracle)[0]
             ctx.fail({"source": src}, f"the front end accepts the meta-model although it breaks: {', '.join(sorted(oracle))}", sig=f"C06:accepted-despite:{first}")
+        if impl["verdict"] == "crash":
+            known = known_crash_family(it["Ax"], flags, impl)
+            if known is not None:
+                ctx.hit("crash-known:" + known)
+            elif oracle:
+                first = sorted(oracle)[0]
+                ctype = impl["crash"].split(":", 1)[-1]
+                ctx.fail({"source": src}, f"the front end crashes ({impl['crash']}) instead of reporting an error on a meta-model that breaks: {', '.join(sorted(oracle))}", sig=f"C06:crash-instead-of-error:{first}:{ctype}")
+            else:
+                ctx.hit("crash-without-broken-rule:" + impl["crash"])
         # ---- sanity of the generators (harness side)
         if rule == "valid" and (oracle or impl["verdict"] != "accepted") and it["strict"]:
             ctx.disagree("mutator-valid", inp, {"impl": impl["verdict"], "impl_rules": sorted(rules), "error": (impl["error"] or "")[-300:]}, {"oracle": sorted(oracle)})
@@ -1854,7 +1951,7 @@ def _streams(ctx: Ctx, with_model: bool) -> None:
     import random as _random
 
     mm = _mm()
-    T = source_tables(REPO)
+    T = frozen_tables()  # the names the mutators use come from the documented (frozen) tables, like the oracle's
     B = _Batch(ctx, with_model)
     thorough = ctx.tier == "thorough"
     rotation = [0]
@@ -1909,6 +2006,19 @@ def _streams(ctx: Ctx, with_model: bool) -> None:
     for c in corpus(ID):
         B.add("corpus", c["source"], rule=None, label="corpus:" + str(c.get("name", "")), strict=False, expect=c.get("expect"))
     B.run()
+
+    # ---- 1b. reserved names the source under test has lost (nothing on the pinned tree; deterministic, every entry)
+    try:
+        current = source_tables(REPO)
+    except ExtractError:
+        current = None  # reported by the runner as a broken extraction; the regular mutants still use the frozen names
+    if current is not None:
+        base = dict(fixed_models())["chain3"]
+        for e in removed_reserved_entries(base, T, current):
+            mut = build(base, [e])
+            if mut is not None:
+                B.add("reserved-removed-from-source", render_mm(mut), rule=e[0], label=e[1], A=abstract(mut), strict=False)
+        B.run()
 
     # ---- 2. enumerated, seed independent
     det = _random.Random(20240606)
@@ -2013,5 +2123,18 @@ def replay(ctx: Ctx, data: Dict[str, Any]) -> Any:
         return res
     res["flags"] = sorted(flags)
     res["oracle"] = sorted(oracle_rules(A))
-    res["model"] = ctx.model(["check " + wire(A)])[0] if ctx.driver_ok else None
+    if ctx.driver_ok:
+        res["model"], res["model_all_stages"] = ctx.model(["check " + wire(A), "all " + wire(A)])
+    else:
+        res["model"] = None
     return res
+
+
+if __name__ == "__main__":
+    import sys
+
+    if sys.argv[1:] == ["--freeze-reserved"]:
+        _FROZEN_PATH.write_text(freeze_reserved(REPO))
+        print(f"wrote {_FROZEN_PATH} from {REPO}")
+    else:
+        print("usage: VERIF_REPO=<repo> python -m harness.props.c06 --freeze-reserved")
